@@ -59,13 +59,13 @@ func xformMenu(thorough, suffixOK bool) []Xform {
 	if thorough {
 		m = []Xform{{}, {Seq: synSeq}, {Prefix: synPrefix}, {Seq: synSeq, Prefix: synPrefix}, {Hide: true}, {Hide: true, Seq: synSeq, Prefix: synPrefix}}
 	} else {
-		m = []Xform{{}, {Seq: synSeq, Prefix: synPrefix}, {Hide: true, Seq: synSeq}}
+		m = []Xform{{}, {Hide: true, Seq: synSeq, Prefix: synPrefix}}
 	}
 	if suffixOK {
 		if thorough {
 			m = append(m, Xform{Suffix: synSuffix}, Xform{Suffix: synSuffix, Seq: synSeq}, Xform{Suffix: synSuffix, Prefix: synPrefix}, Xform{Suffix: synSuffix, Prefix: synPrefix, Seq: synSeq})
 		} else {
-			m = append(m, Xform{Suffix: synSuffix}, Xform{Suffix: synSuffix, Prefix: synPrefix, Seq: synSeq})
+			m = append(m, Xform{Suffix: synSuffix, Prefix: synPrefix, Seq: synSeq})
 		}
 	}
 	return m
